@@ -419,12 +419,12 @@ pub struct PtyCase {
     unknown_size: bool,
 }
 
-struct Pty {
-    master: std::fs::File,
-    slave: std::fs::File,
+pub(crate) struct Pty {
+    pub(crate) master: std::fs::File,
+    pub(crate) slave: std::fs::File,
 }
 
-fn open_pty(rows: u16, cols: u16) -> Result<Pty, String> {
+pub(crate) fn open_pty(rows: u16, cols: u16) -> Result<Pty, String> {
     use std::os::fd::FromRawFd;
     let (mut m, mut s) = (0, 0);
     let ws = libc::winsize { ws_row: rows, ws_col: cols, ws_xpixel: 0, ws_ypixel: 0 };
